@@ -321,10 +321,16 @@ def rule_flushid(ctx, sch):
     if len(loops) == 1:
         it = loops[0].iter
         inner = it.args[0] if isinstance(it, ast.Call) and norm(it.func) == 'sorted' and it.args else it
-        ok3 = is_unflushed(inner) and not any(isinstance(x, (ast.If, ast.Break, ast.Continue)) for x in walk_own(loops[0]))
+        # ... or over the (hashX, entries) pairs: sorted(unflushed.items())
+        pairs = isinstance(inner, ast.Call) and isinstance(inner.func, ast.Attribute) and inner.func.attr == 'items' and not inner.args \
+            and is_unflushed(inner.func.value) and isinstance(loops[0].target, ast.Tuple) and len(loops[0].target.elts) == 2
+        ok3 = (is_unflushed(inner) or pairs) and not any(isinstance(x, (ast.If, ast.Break, ast.Continue)) for x in walk_own(loops[0]))
         v = sch.hist_put.args[1]
-        vals_ok = isinstance(v, ast.Call) and norm(v.func) == 'bytes' and isinstance(v.args[0], ast.Subscript) and is_unflushed(v.args[0].value) \
-            and norm(v.args[0].slice) == norm(loops[0].target)
+        if pairs:
+            vals_ok = isinstance(v, ast.Call) and norm(v.func) == 'bytes' and norm(v.args[0]) == norm(loops[0].target.elts[1])
+        else:
+            vals_ok = isinstance(v, ast.Call) and norm(v.func) == 'bytes' and isinstance(v.args[0], ast.Subscript) and is_unflushed(v.args[0].value) \
+                and norm(v.args[0].slice) == norm(loops[0].target)
     ctx.check(ok3 and vals_ok, 'C02.CONSUME', ctx.key(f, None, 'all unflushed rows written'),
               'every script hash with unflushed entries gets its row, holding exactly those entries',
               'not every unflushed script hash is written with exactly its entries', loc=ctx.loc(f, f.node))
@@ -408,6 +414,9 @@ def rule_byheight(ctx):
         g = lc.generators[0]
         buf, iv = norm(rs.targets[0]), norm(g.target)
         ok3 = not g.ifs and norm(g.iter) == f'range({cv})' and norm(lc.elt).replace(' ', '') == f'{buf}[{iv}*32:({iv}+1)*32]'
+        # the same slices over byte offsets: buf[o:o + 32] for o in range(0, n * 32, 32)
+        ok3 = ok3 or (not g.ifs and norm(g.iter).replace(' ', '') in (f'range(0,{cv}*32,32)', f'range(0,32*{cv},32)', f'range(0,len({buf}),32)')
+                      and norm(lc.elt).replace(' ', '') == f'{buf}[{iv}:{iv}+32]')
     ctx.check(ok3, 'C02.BYHEIGHT', ctx.key(f, None, 'slices'), 'the hashes are the consecutive 32-byte slices, in block order',
               'the returned hashes are not the consecutive 32-byte slices in order', loc=ctx.loc(f, f.node))
     n += 1
